@@ -415,6 +415,54 @@ pub fn check_case(case: &C07Case) -> (Vec<Violation>, Counters, bool, Option<Wri
       }
     }
   }
+  // collaborator failures: a user-defined child source unwinds once inside a
+  // content call (at its n-th method entry); nothing of it may stay behind
+  if violations.is_empty() && case.tree.contains(&|n| matches!(n, TreeSpec::User { .. })) {
+    let mut b3 = Builder::new();
+    let fresh = b3.build(&case.tree);
+    let fresh_dyn: &Dyn = fresh.as_ref();
+    let mut n = 0u64;
+    'outer: for at in 0..4u32 {
+      for then in [
+        OpKind::ToWriter { plan: WriterPlan::default() },
+        OpKind::Buffer,
+        OpKind::Source,
+        OpKind::Size,
+        OpKind::Rope,
+      ] {
+        n += 1;
+        let a = exec_op(&[fresh_dyn], 0, &OpKind::ChildFault { at, then: Box::new(then.clone()) }, &ctx(70_000 + n))
+          .unwrap_or(Answer::NotRun);
+        counters.inc("fault:collaborator_unwind_planned");
+        match &a {
+          Answer::Aborted { .. } => counters.inc("fault:collaborator_unwind_fired"),
+          Answer::Panicked(m) => {
+            violations.push(Violation {
+              kind: "panic".into(),
+              op_class: then.class().into(),
+              detail: format!("{} with a child source failing at its call #{} panicked by itself: {}", then.label(), at, m),
+            });
+            break 'outer;
+          }
+          _ => {}
+        }
+        let when = format!("after a child source unwound once inside {} (its call #{})", then.label(), at);
+        let v3 = views(fresh_dyn);
+        violations.extend(check_views(&v3, &text, &bytes, &when));
+        let again = exec_op(&[fresh_dyn], 0, &OpKind::ToWriter { plan: WriterPlan::default() }, &ctx(80_000 + n)).unwrap_or(Answer::NotRun);
+        if let Some(d) = judge_written(&again, &WriterPlan::default(), &bytes) {
+          violations.push(Violation {
+            kind: "writer".into(),
+            op_class: "to_writer".into(),
+            detail: format!("{}: a fault-free to_writer: {}", when, d),
+          });
+        }
+        if !violations.is_empty() {
+          break 'outer;
+        }
+      }
+    }
+  }
   (violations, counters, false, first_bad)
 }
 
